@@ -254,11 +254,16 @@ def run_property(prop, tier="quick", only=None, jobs=None, seed=0, verbose=True)
             # one replay per distinct (label, inputs)
             seen = set()
             rfuts = []
+            per_label_replays = {}
             for c in cexs:
                 key = json.dumps([c["label"], c["inputs"], c["params"]], sort_keys=True, default=str)
                 if key in seen:
                     continue
                 seen.add(key)
+                # replay at most 40 counterexamples per label (each is a native run of the real code)
+                per_label_replays[c["label"]] = per_label_replays.get(c["label"], 0) + 1
+                if per_label_replays[c["label"]] > 40 and not active:
+                    continue
                 rfuts.append((c, pool.submit(_replay, prop, k.id, tier, c["params"], c["inputs"])))
             n_known = 0
             for c, fut in rfuts:
